@@ -516,10 +516,10 @@ def splice_fn(text, opts, directives, path, selector):
     where = "%s :: %s" % (path, selector)
     st, bo, arrow, wh = _fn_parts(text)
     edits = []
-    if "decl" in opts:
+    if "decl" in opts or "stub" in opts:
         if bo is not None:
             bc = match_close(st, bo)
-            edits.append((st[bo].start, st[bc].end, "__DECL_BODY__"))
+            edits.append((st[bo].start, st[bc].end, "__DECL_BODY__" if "decl" in opts else "{ unimplemented!() }"))
     if "ret" in directives:
         name = directives["ret"]
         if arrow is None:
@@ -538,7 +538,7 @@ def splice_fn(text, opts, directives, path, selector):
             # declaration ending with ;
             semi = len(st) - 1
             edits.append((st[semi].start, st[semi].start, "\n" + sigtxt + "\n"))
-    if bo is not None and "decl" not in opts:
+    if bo is not None and "decl" not in opts and "stub" not in opts:
         if "entry" in directives:
             edits.append((st[bo].end, st[bo].end, "\n" + directives["entry"] + "\n"))
         if "tail" in directives:
@@ -626,6 +626,37 @@ def generate(spec_path, open_findings=()):
                 txt, carriers = optable.gen(d.split()[2])
                 out.extend(txt.split("\n"))
                 gen.generated.append("operator oracle %s_refs/with_%s_refs from wasmparser for_each_operator! (%d carriers)" % (d.split()[2], d.split()[2], len(carriers)))
+                i += 1; continue
+            if d.startswith("generate opcode "):
+                # every default method of the trait, each with the postcondition its NAME demands
+                # (specs/opcode_table.tsv: helper -> operator variant + field bindings)
+                trait = d.split()[2]
+                tpath = "src/opcode.rs"
+                table = {}
+                for tl in open(os.path.join(os.path.dirname(os.path.dirname(os.path.abspath(__file__))), "specs", "opcode_table.tsv")):
+                    if tl.startswith("#") or not tl.strip(): continue
+                    parts = tl.rstrip("\n").split("\t")
+                    table[parts[0]] = (parts[1], parts[2] if len(parts) > 2 else "")
+                sf = source(tpath)
+                tr = sf.find_trait(trait)
+                if len(tr) != 1: raise ExtractError("anchor lost: trait %s in %s" % (trait, tpath))
+                for c in tr[0].children or []:
+                    if c.kind != "fn": continue
+                    if c.name not in table:
+                        raise ExtractError("helper %s::%s has no row in opcode_table.tsv (new helper: extend the table)" % (trait, c.name))
+                    variant, binds = table[c.name]
+                    if binds:
+                        flds = ", ".join("%s: %s" % tuple(b.split("=", 1)) for b in binds.split(";"))
+                        opx = "Operator::%s { %s }" % (variant, flds)
+                    else:
+                        opx = "Operator::%s" % variant
+                    dd = {"ret": "r", "sig": ("        ensures\n"
+                          "            r.log() == old(self).log().push(%s),      //# %s.%s.emits_exactly_the_named_instruction\n"
+                          "            final(self).log() == final(r).log(),") % (opx, trait, c.name)}
+                    pc = extract_item(tpath, "trait %s :: fn %s" % (trait, c.name), [], dd, open_findings)
+                    gen.pieces.append(pc)
+                    out.append("// ---- extracted: %s :: trait %s :: fn %s  [%s]" % (tpath, trait, c.name, ",".join(sorted(set(pc.rules)))))
+                    out.extend(pc.text.split("\n"))
                 i += 1; continue
             if d.startswith("derive-policy "):
                 # e.g.  //@ derive-policy +Structural DataType FunctionID   |  -Default *
